@@ -166,9 +166,9 @@ func NewOut(a Args, require, caseType string, shardSize int) *Out {
 // was gathered so far is flushed and the harness ends, instead of sitting there
 // until the driver's 25-minute timeout.  VERIF_STALL overrides the limit (seconds).
 func (o *Out) watchdog() {
-	limit := 300 * time.Second
+	limit := 120 * time.Second
 	if o.args.Tier == "thorough" {
-		limit = 900 * time.Second
+		limit = 600 * time.Second
 	}
 	if v, err := strconv.Atoi(os.Getenv("VERIF_STALL")); err == nil && v > 0 {
 		limit = time.Duration(v) * time.Second
